@@ -829,6 +829,88 @@ func runC02(c *core.Ctx) core.Meta {
 		}
 	}
 
+	// ---------------- R02.9 the ALU does not observe when the compute unit advances the PC ----------------
+	st9 := c.Rule("R02.9", "the emulation compute unit advances the PC before it runs the ALU and the timing compute unit after it, so the PC register seen by a handler differs by the instruction size between the modes; relative branches are immune (PC() + displacement is written back with SetPC and the later / earlier increment commutes), every other use is not: in both ALUs a value read with PC() flows only into SetPC, never into WriteOperand or memory; a handler that needs its own address reads Inst.PC, which both compute units set where they decode the instruction", 6)
+	{
+		for _, a := range []struct{ pkg, typ string }{{emuPkg, "ALUImpl"}, {cdna3Pkg, "ALU"}} {
+			for _, fn := range c.SrcFuncs(a.pkg) {
+				if fn.Signature.Recv() == nil || !strings.HasSuffix(fn.Signature.Recv().Type().String(), "."+a.typ) {
+					continue
+				}
+				for _, b := range fn.Blocks {
+					for _, in := range b.Instrs {
+						name, _ := stateMethod(in)
+						if name != "PC" {
+							continue
+						}
+						st9.Instances++
+						c.MarkAnalysed(fn)
+						bad := ""
+						seen := map[ssa.Value]bool{}
+						var follow func(v ssa.Value, d int)
+						follow = func(v ssa.Value, d int) {
+							if v == nil || seen[v] || d > 8 || v.Referrers() == nil {
+								return
+							}
+							seen[v] = true
+							for _, r := range *v.Referrers() {
+								switch t := r.(type) {
+								case *ssa.BinOp:
+									follow(t, d+1)
+								case *ssa.Convert:
+									follow(t, d+1)
+								case *ssa.ChangeType:
+									follow(t, d+1)
+								case *ssa.Phi:
+									follow(t, d+1)
+								case *ssa.DebugRef:
+								default:
+									if n2, _ := stateMethod(r); n2 == "SetPC" {
+										continue
+									}
+									if n2, _ := stateMethod(r); n2 != "" {
+										bad = n2
+									} else if _, isStore := r.(*ssa.Store); isStore {
+										bad = "a store"
+									} else if cc := core.CallOf(r); cc != nil {
+										bad = "a call"
+									}
+								}
+							}
+						}
+						follow(in.(ssa.Value), 0)
+						st9.Ob(bad == "")
+						if bad != "" {
+							c.ReportAt("R02.9", fn, in.Pos(), "pc-observed:"+core.FuncName(fn), fmt.Sprintf("%s passes a value derived from the wavefront's PC register to %s: emulation has already advanced the PC when the handler runs and timing has not, so the result differs by the instruction size between the two modes", core.FuncName(fn), bad))
+						}
+					}
+				}
+			}
+		}
+		// both compute units record the instruction's own address where they decode it
+		for _, site := range []struct{ pkg, fn string }{{emuPkg, "ComputeUnit.runWfUntilBarrier"}, {cuPkg, "SchedulerImpl.DecodeNextInst"}} {
+			fn := c.SSAFunc(site.pkg, site.fn)
+			st9.Instances++
+			sets := false
+			if fn != nil {
+				c.MarkAnalysed(fn)
+				for _, b := range fn.Blocks {
+					for _, in := range b.Instrs {
+						if s, ok := in.(*ssa.Store); ok {
+							if fa, ok := s.Addr.(*ssa.FieldAddr); ok && fieldNameOf(fa) == "PC" && instFieldName(fa.X.Type(), fa.Field) == "PC" {
+								sets = true
+							}
+						}
+					}
+				}
+			}
+			st9.Ob(sets)
+			if !sets {
+				c.Report(core.Finding{Rule: "R02.9", Pkg: site.pkg, Func: site.fn, Detail: "inst-address-not-recorded", Msg: site.fn + " decodes an instruction for execution without recording its address in Inst.PC: a handler that needs its own address has to fall back on the mode-dependent PC register"})
+			}
+		}
+	}
+
 	// ---------------- R02.5 timing-only wait counters stay balanced ----------------
 	checkOutstandingCounters(c, pcu, prov, "R02.5")
 
